@@ -63,7 +63,7 @@ pub fn gen_actors(r: &mut Rng) -> Vec<Actor> {
 }
 
 struct Swarm {
-    w: [u32; 15],
+    w: [u32; 17],
     tag_w: [u32; 4],
     kind_w: [u32; 3],
     branch_classes: u32,
@@ -71,8 +71,8 @@ struct Swarm {
 }
 
 fn gen_swarm(r: &mut Rng, nact: usize) -> Swarm {
-    // commit branch checkout detach merge ff tag deltag delbranch reset amend dirty clean pack gc
-    let base: [u32; 15] = [30, 10, 10, 4, 8, 3, 22, 3, 2, 4, 3, 8, 2, 2, 1];
+    // commit branch checkout detach merge ff tag deltag delbranch reset amend dirty clean pack gc orphan treetag
+    let base: [u32; 17] = [30, 10, 10, 4, 8, 3, 22, 3, 2, 4, 3, 8, 2, 2, 1, 1, 1];
     let mut w = base;
     for x in w.iter_mut().skip(1) {
         *x *= match r.below(4) {
@@ -121,7 +121,12 @@ fn gen_op(r: &mut Rng, sw: &Swarm) -> Op {
         11 => Op::Dirty { kind: *r.pick(&DirtyKind::ALL) },
         12 => Op::Clean,
         13 => Op::PackRefs,
-        _ => Op::Gc,
+        14 => Op::Gc,
+        15 => Op::Orphan { name: names::branch_name(r, sw.branch_classes), actor: a, dt: gen_dt(r) },
+        _ => {
+            let (name, _, _) = names::tag_name(r, &[6, 1, 1, 1]);
+            Op::TagTree { name, commit: r.below(64) as usize }
+        }
     }
 }
 
@@ -189,6 +194,9 @@ pub fn skeletons() -> Vec<(&'static str, Vec<Op>)> {
         ("equal-timestamps-fork", vec![c(0), t("v1.0.0"), br("b"), c(0), t("v1.0.1"), co(1), c(0), t("v1.0.2"), co(0), Op::Merge { others: vec![1], actor: 0, dt: 0 }]),
         ("packed-refs", vec![c(10), ta("v1.0.0"), t("v1.0.1"), c(10), Op::PackRefs, c(10), t("v1.1.0"), c(10)]),
         ("epoch-and-short-release", vec![c(10), t("1!1.0.0"), t("9.9.9"), c(10), t("2.1"), c(1)]),
+        ("unrelated-histories-merged", vec![c(10), t("v1.0.0"), cf(10), Op::Orphan { name: "imported".into(), actor: 0, dt: 5 }, cf(5), t("v0.5.0"), cf(5), co(0), mg(1), c(5)]),
+        ("orphan-only-tag-on-other-root", vec![c(10), t("v3.0.0"), Op::Orphan { name: "docs".into(), actor: 0, dt: 5 }, c(5), c(5)]),
+        ("version-named-tree-tag", vec![c(10), t("v1.0.0"), c(10), Op::TagTree { name: "v9.9.9".into(), commit: 1 }, c(10)]),
         ("many-tagged-commits", vec![c(1), t("v0.0.1"), c(1), t("v0.0.2"), c(1), t("v0.0.3"), c(1), t("v0.0.4"), c(1), t("v0.0.5"), c(1), t("v0.0.6"), c(1)]),
     ]
 }
@@ -618,6 +626,12 @@ fn judge_inner(w: &World, fmt: &str, sim_now: i64, obs: &Obs, stats: &mut Stats)
     }
     if w.head_branch().map(|b| !b.is_ascii()).unwrap_or(false) {
         stats.bump("probe.non_ascii_branch");
+    }
+    if anc_h.iter().filter(|&&c| w.commits[c].parents.is_empty()).count() >= 2 {
+        stats.bump("probe.several_roots_in_ancestry");
+    }
+    if w.tree_tags.iter().any(|(n, _)| valid_for(n, fmt)) {
+        stats.bump("probe.version_named_tag_on_a_tree");
     }
     out
 }
